@@ -358,17 +358,59 @@ pub struct Out {
     pub timed_out: bool,
 }
 
+/// Where the child's standard output goes
+#[derive(Clone, Copy, PartialEq, Eq, Debug)]
+pub enum StdoutTo {
+    /// a regular file (read back afterwards)
+    File,
+    /// `/dev/full`: every write fails with ENOSPC
+    DevFull,
+    /// a pipe whose reading end is already closed: every write fails with EPIPE
+    ClosedPipe,
+}
+
 pub fn launch(bin: &Path, dir: &Path, argv: &[String], tag: u64) -> Result<Out, String> {
-    let so = dir.join(format!(".stdout-{tag}"));
-    let se = dir.join(format!(".stderr-{tag}"));
+    launch_ext(bin, dir, dir, argv, tag, StdoutTo::File)
+}
+
+/// Launch with working directory `cwd`; the capture files live in `scratch`.
+pub fn launch_ext(
+    bin: &Path,
+    cwd: &Path,
+    scratch: &Path,
+    argv: &[String],
+    tag: u64,
+    stdout_to: StdoutTo,
+) -> Result<Out, String> {
+    let so = scratch.join(format!(".stdout-{tag}"));
+    let se = scratch.join(format!(".stderr-{tag}"));
     let fo = std::fs::File::create(&so).map_err(|e| e.to_string())?;
     let fe = std::fs::File::create(&se).map_err(|e| e.to_string())?;
+    let out: Stdio = match stdout_to {
+        StdoutTo::File => fo.into(),
+        StdoutTo::DevFull => std::fs::OpenOptions::new()
+            .write(true)
+            .open("/dev/full")
+            .map_err(|e| format!("/dev/full: {e}"))?
+            .into(),
+        StdoutTo::ClosedPipe => {
+            use std::os::fd::{FromRawFd, OwnedFd};
+            let mut fds = [0i32; 2];
+            if unsafe { libc::pipe2(fds.as_mut_ptr(), libc::O_CLOEXEC) } != 0 {
+                return Err("pipe2 failed".into());
+            }
+            unsafe {
+                libc::close(fds[0]);
+                OwnedFd::from_raw_fd(fds[1]).into()
+            }
+        }
+    };
     let mut child = Command::new(bin)
         .args(argv)
-        .current_dir(dir)
+        .current_dir(cwd)
         .env("NO_COLOR", "1")
         .stdin(Stdio::null())
-        .stdout(fo)
+        .stdout(out)
         .stderr(fe)
         .spawn()
         .map_err(|e| format!("spawn {}: {e}", bin.display()))?;
